@@ -157,7 +157,7 @@ def rule_X(ctx):
                     judge('order', n, cells, mname, mval, want_min, 'ordering of the list sums: ' + orders.describe(
                         {'+'.join('%d-%d' % s_ for s_ in _segs(l)): ranks[k] for k, l in enumerate(lists)}))
         # (b) n = 2..6: each candidate list in turn is the unique optimum (its segments cost 1 resp. 10, every other segment 10 resp. 1)
-        for n in (2, 3, 4, 5, 6):
+        for n in ((2, 3, 4, 5, 6, 7, 8) if ctx.tier == 'thorough' else (2, 3, 4, 5, 6)):
             for target in _lists(n):
                 tset = set(_segs(target))
                 for lo, hi in ((1, 10), (-10, -1)):
